@@ -353,6 +353,30 @@ func properties() map[string]*propDef {
 		Rule:           "enumerated histories over Add/Remove/Route/RemoveRoute/Handle on the root path menu (quick: all ordered pairs with each removal, a seeded quarter with a fourth operation or RouterJSR311; thorough: all, plus all triples); the history-built container and a fresh one with the model's content get the same symbolic probe through Dispatch and ServeHTTP",
 		RequiredCovers: []string{"dispatch-routed", "serve-routed", "serve-404"},
 	}
+	m["C19"] = &propDef{
+		ID: "C19",
+		Items: func(tier string, seed int) []item {
+			var out []item
+			for tbl := 0; tbl < nCoreTables; tbl++ {
+				for router := 0; router < 2; router++ {
+					if router == 1 && curlyOnly(tbl) {
+						continue
+					}
+					out = append(out, item{Harness: "H_C19_route", Cfg: []int{tbl, router}, Label: "core table, router"})
+				}
+			}
+			for cfg := 0; cfg < 4; cfg++ {
+				out = append(out, item{Harness: "H_C19_cors", Cfg: []int{cfg}, Label: "cfg%2==0: AllowedMethods configured; cfg>=2: OPTIONSFilter installed too"})
+			}
+			out = append(out, item{Harness: "H_C19_attrs", Cfg: []int{2}}, item{Harness: "H_C19_attrs", Cfg: []int{3}})
+			return out
+		},
+		Bounds: map[string]interface{}{"path_bytes": 12, "segments": 3, "method_bytes": 7, "requests_per_history": "2..3 on one container", "tables": nCoreTables},
+		Assumptions: append([]string{"frame monitor: every store executed while serving is classified by the allocation epoch of its target; request-vs-request concurrency is covered by the argument of DESIGN 2.7 (no store to state that outlives the request => interleavings are equivalent to a sequential order), not by exploring schedules",
+			"natively the frame monitor's job is done by a reflection fingerprint of everything reachable from the container before and after the request"}, commonAssumptions...),
+		Rule:           "routing family: same symbolic request three times on one container (second time after scribbling on the first handler's parameters, third time with trace on); CORS/OPTIONS family: symbolic first request, then a symbolic second request compared with a fresh twin; attribute family: n identical requests through an attribute-setting filter; a frame monitor runs around the first dispatch of each",
+		RequiredCovers: []string{"invoked", "not-invoked", "preflight-granted", "served"},
+	}
 	m["C15"] = &propDef{
 		ID: "C15",
 		Items: func(tier string, seed int) []item {
